@@ -22,7 +22,7 @@ from ..report import Ctx
 from ..selftest import Mutant
 
 PROP = "C11"
-TECHNIQUE = "static analysis: shape analysis of the graph selection (guard facts of the predecessor expansion, forbidden forward/set-algebra operations) + CFG ordering in prepare_run (helper-aware) + parameter-forwarding completeness + name-kind rule (str result names vs OUTPUT_TYPE requests, via the annotation typer) + empty-vs-None guard rule + every pipeline-taking validator after the restriction"
+TECHNIQUE = "static analysis: shape analysis of the graph selection (guard facts of the predecessor expansion, forbidden forward/set-algebra operations) + CFG ordering in prepare_run (helper-aware) + parameter-forwarding completeness + name-kind rule (str result names vs OUTPUT_TYPE requests, via the annotation typer) + empty-vs-None guard rule + every pipeline-taking validator after the restriction + cut-set rules (nothing removed, nothing unsupplied added) + typed set algebra between single and whole names + whole-restriction validation + per-output settings tolerate the restriction"
 BASE = "pipefunc._pipeline._base"
 EXPLANATION = (
     "Static analysis: shape of the graph selection in _find_nodes_between (worklist over predecessors with a cut at the "
